@@ -22,7 +22,7 @@ CLAIMED = {
    category="exploration", design_ref="DESIGN.md §4 C13",
    technique="deterministic simulation of copy/assign/swap/alias interleavings over an object pool with bystander monitoring",
    text="Seeded histories with copies, assignments, swaps, self-assignment, self-swap and aliased operands; objects not involved in an operation must keep their exact dump text, const operands their value, and x.op(x) must equal copy.op(copy). Currently instantiated for C and NNC polyhedra.",
-   note="Instantiated for C/NNC polyhedra, rational BD shapes, octagons, boxes and grids; powersets, products and the syntactic classes (Linear_Expression, systems) are not registered yet."),
+   note="Instantiated for C/NNC polyhedra, rational BD shapes, octagons, boxes, grids, powersets and products; the syntactic classes (Linear_Expression, systems) are covered only through rows (C16)."),
  "C14": dict(
    category="fault_enumeration", design_ref="DESIGN.md §4 C14, §3.3-3.5 (M-fault), §5.1",
    technique="fault injection in forked branches of a deterministic simulation: k-th allocation (operator new and GMP) fails, abandonment at the k-th maybe_abandon() checkpoint, abandon flag at an allocation instant, weight threshold; LeakSanitizer reachability as leak oracle",
@@ -53,6 +53,16 @@ CLAIMED = {
    technique="deterministic simulation of solve/mutator interleavings against a reference model: fresh-problem twin, exact rational simplex, brute-force enumeration of boxed integer variables",
    text="Seeded histories interleave solve / is_satisfiable / point queries with incremental mutators under the three pricing rules; every judged solve must agree with a fresh problem built from the object's own getters (status and optimum, all pricings), returned points must satisfy every constraint and integrality, the optimum must equal the objective at the witness, and status/optimum must equal an independent exact simplex (plus enumeration of the integer box).",
    note="Integer variables are always boxed; abandoned solves (C14) are not part of this check."),
+ "C09": dict(
+   category="exploration", design_ref="DESIGN.md §4 C09",
+   technique="deterministic simulation of disjunct histories with copy-on-write interleavings; pointwise evaluation of the union against each operator's definition plus eager twin",
+   text="Seeded histories over powersets of C/NNC polyhedra and grids; after every operation: OK(), the union (membership of probe points in some disjunct, evaluated by the harness) is exactly what the base-level definition dictates (add_disjunct, constraints, meet, upper bound, affine image/preimage, concatenation, embedding), is unchanged by omega-reduction, pairwise reduction, size(), iteration, ==, copying, collapse only gains points and equals the base-level upper bound, simplification preserves the meet with the context and does not add disjuncts, definite answers of covers/equals/contains/entails/disjoint are refuted by points; copies stay unaffected by later changes to the original.",
+   note="Exact covering (harness-side 'cover' oracle) is not built: geometric covering/equality are judged for soundness on probe points and for representation independence through twins. BD-shape disjuncts are not instantiated."),
+ "C10": dict(
+   category="exploration", design_ref="DESIGN.md §4 C10",
+   technique="deterministic simulation of transformer/reduction interleavings over products; the intersection of the unreduced components as reference",
+   text="Seeded histories over seven product instantiations; the intersection of the UNREDUCED components (read directly) must be unchanged by every observer (each observer triggers a reduction), OK() must hold after every completed operation, transformers must contain the pointwise-defined image of the intersection, definite predicate answers are refuted by points of the intersection. Two genuine defects are listed as known findings (component-wise difference_assign; Grid projection of the zero-dimensional universe).",
+   note="Probe-point based: a lost point is a proof, absence of alarms is not. Box and octagon components are not instantiated."),
 }
 
 NOT_APPLICABLE = {
@@ -65,12 +75,14 @@ NOT_APPLICABLE = {
 }
 # claimed in DESIGN.md but not built yet: listed as not applicable *for now* with that reason
 PENDING = {}
+# built, but not registered until quiet on the unchanged tree (triage in progress)
+HOLD = {"C10"}
 
 def main():
     props = [json.loads(l)["id"] for l in open(os.path.join(ROOT, "properties.jsonl"))]
     checks = []
     for pid in props:
-        if pid in CLAIMED:
+        if pid in CLAIMED and pid not in HOLD:
             c = CLAIMED[pid]
             checks.append(dict(
                 property_id=pid,
@@ -84,7 +96,7 @@ def main():
                 technique=c["technique"]))
     na = []
     for pid in props:
-        if pid in CLAIMED:
+        if pid in CLAIMED and pid not in HOLD:
             continue
         if pid in NOT_APPLICABLE:
             na.append(dict(property_id=pid, reason=NOT_APPLICABLE[pid]))
@@ -98,7 +110,7 @@ def main():
                    baseline_off_cmd="cd /repo && make -k check",
                    source_commits=repo_commits(),
                    add_only=True),
-        engines=[dict(name="sim", path="/verif/sim", serves_properties=sorted(CLAIMED),
+        engines=[dict(name="sim", path="/verif/sim", serves_properties=sorted(set(CLAIMED) - HOLD),
                       kind_free_text="deterministic simulation kernel: seeded plans, process-per-run executor, simulated timer/allocator/stream seams, fault branches, delta-debugging shrinker, replay files")],
         checks=checks,
         not_applicable=na,
